@@ -20,6 +20,15 @@ fn axle_fresh<const N: usize>() -> Result<(), String> {
         if !matches!(get_state(t), Ok(None)) || !matches!(get_cmd(t), Ok(None)) { return Err(format!("Axle<{}> terminal {}: fresh terminal is not empty", N, i)); }
         if Settable::<Datum<State>, E>::get_last_request(&*t.borrow()).is_some() { return Err(format!("Axle<{}> terminal {}: fresh terminal has a last request", N, i)); }
     }
+    // an index at or beyond N must not hand out a reference outside the axle: either the call panics
+    // (bounds check) or, if an implementation chose to wrap/clamp, the reference is one of the N terminals
+    for idx in [N, N + 1, N + 7, usize::MAX] {
+        let valid: Vec<*const T> = (0..N).map(|i| ax.get_terminal(i) as *const T).collect();
+        match catch(|| ax.get_terminal(idx) as *const T) {
+            Err(_) => {}
+            Ok(p) => if !valid.contains(&p) { return Err(format!("Axle<{}>::get_terminal({}) returned a reference that is not one of the axle's {} terminals (out of bounds)", N, idx, N)); }
+        }
+    }
     for i in 0..N { connect(&ext[i], ax.get_terminal(i)); }
     if N > 0 {
         set_state(&ext[0], 7, State::new_raw(3.0, 2.0, 1.0));
@@ -101,7 +110,7 @@ fn main() {
     // ---- axle constructor, sizes 0..8
     if args.mine("axle", 0) {
         macro_rules! ax { ($($n:literal),*) => { $( { rep.eval(); rep.distinct(("axle", $n)); rep.tally("axle_sizes");
-            match catch(|| axle_fresh::<$n>()) { Ok(Ok(())) => {}, Ok(Err(m)) => rep.violation("C16/poison-differential/Axle::new", "axle", $n, m), Err(m) => rep.violation("C16/panic/Axle::new", "axle", $n, format!("Axle<{}>: {}", $n, m)) } } )* } }
+            match catch(|| axle_fresh::<$n>()) { Ok(Ok(())) => {}, Ok(Err(m)) => rep.violation(if m.contains("out of bounds") { "C16/out-of-bounds/Axle::get_terminal" } else { "C16/poison-differential/Axle::new" }, "axle", $n, m), Err(m) => rep.violation("C16/panic/Axle::new", "axle", $n, format!("Axle<{}>: {}", $n, m)) } } )* } }
         ax!(0, 1, 2, 3, 4, 5, 6, 7, 8);
         rep.sample("axle", "Axle::<N>::new() for N=0..8: every terminal borrowable, empty, connectable; one update broadcast".to_string());
     }
